@@ -81,6 +81,14 @@ fn c16_scalar_messages() {
     assert!(h.get_sample_count() == n, "C16: Histogram frame");
     s.set_quantile(vec![q.clone()]);
     assert!(s.get_quantile().len() == 1 && s.get_quantile()[0].value().to_bits() == w.to_bits(), "C16: Summary quantile list");
+    // setters of repeated fields REPLACE the previous list (a collector that refreshes a kept
+    // Summary / Histogram on every scrape must not accumulate stale entries)
+    let mut q2 = Quantile::default();
+    q2.set_quantile(w);
+    s.set_quantile(vec![q2.clone(), q2]);
+    assert!(s.get_quantile().len() == 2 && s.get_quantile()[0].quantile().to_bits() == w.to_bits(), "C16: Summary.set_quantile must replace the list, not append to it");
+    h.set_bucket(vec![b.clone(), b.clone()]);
+    assert!(h.get_bucket().len() == 2, "C16: Histogram.set_bucket must replace the list, not append to it");
     core::mem::forget((mc, mg, q, b, s, h));
 }
 
@@ -141,6 +149,10 @@ fn c16_metric_message() {
     lp.set_value("c".to_owned());
     m.set_label(vec![lp.clone()]);
     assert!(m.get_label().len() == 1 && m.get_label()[0].name() == "ab" && m.get_label()[0].value() == "c", "C16: Metric label set/get");
+    let mut lp2 = LabelPair::default();
+    lp2.set_name("zz".to_owned());
+    m.set_label(vec![lp2]);
+    assert!(m.get_label().len() == 1 && m.get_label()[0].name() == "zz", "C16: Metric.set_label must replace the list, not append to it");
     let taken = m.take_label();
     assert!(taken.len() == 1 && m.get_label().len() == 0, "C16: take_label must return the labels and leave none");
     assert!(m.timestamp_ms() == t, "C16: take_label frame");
@@ -195,6 +207,8 @@ fn c16_label_pair_and_family() {
     m.set_timestamp_ms(7);
     mf.set_metric(vec![m.clone()]);
     assert!(mf.get_metric().len() == 1 && mf.get_metric()[0].timestamp_ms() == 7, "C16: MetricFamily metric list");
+    mf.set_metric(vec![m.clone()]);
+    assert!(mf.get_metric().len() == 1, "C16: MetricFamily.set_metric must replace the list, not append to it");
     mf.mut_metric().push(m);
     assert!(mf.get_metric().len() == 2, "C16: mut_metric push");
     let taken = mf.take_metric();
